@@ -1,1 +1,206 @@
-pub fn run(_args: &[String]) { println!("{{}}"); }
+//! Parse-level halves of C13 (handler legality) and C16 (option subsets / orders / duplicates).
+use crate::common::*;
+use join_impl::JoinInputDefault;
+use proc_macro2::TokenStream;
+use quote::ToTokens;
+use std::str::FromStr;
+
+fn squeeze(s: String) -> String {
+    s.chars().filter(|c| !c.is_whitespace()).collect()
+}
+
+pub fn run(args: &[String]) {
+    match args[0].as_str() {
+        "handlers" => handlers(),
+        "options" => options(),
+        _ => std::process::exit(2),
+    }
+}
+
+fn handlers() {
+    let t0 = std::time::Instant::now();
+    let kinds = ["map", "and_then", "then"];
+    let mut n = 0u64;
+    let mut nviol = 0u64;
+    let mut viols: Vec<String> = vec![];
+    let mut samples: Vec<String> = vec![];
+    for cfg in 0..8 {
+        let c = config(cfg);
+        for nb in 1..=3usize {
+            let branches: Vec<String> = (0..nb).map(|i| format!("b{} |> f{} ~=> g{}", i, i, i)).collect();
+            for (ki, k) in kinds.iter().enumerate() {
+                for pos in 0..=nb {
+                    // single handler
+                    let mut parts = branches.clone();
+                    parts.insert(pos, format!("{} => h", k));
+                    let legal = if c.is_try { *k != "then" } else { *k == "then" };
+                    for trailing in ["", ","] {
+                        let txt = format!("{}{}", parts.join(", "), trailing);
+                        let out = expand_str(&txt, cfg);
+                        n += 1;
+                        let bad = match (&out, legal) {
+                            (Outcome::Ok(_), true) => None,
+                            (o, false) if o.is_rejection() => None,
+                            (Outcome::Ok(_), false) => Some(format!("`{}` handler is not legal for this macro but was accepted", k)),
+                            (o, true) => Some(format!("legal `{}` handler was not accepted: {:?}", k, o)),
+                            (o, false) => Some(format!("illegal handler was neither accepted nor rejected with a message: {:?}", o)),
+                        };
+                        if let Some(b) = bad {
+                            nviol += 1;
+                            if viols.len() < 8 {
+                                viols.push(format!("{{\"input\":{},\"config\":{},\"what\":{}}}", jesc(&txt), jesc(CONFIG_NAMES[cfg]), jesc(&b)));
+                            }
+                        } else if samples.len() < 3 && n % 37 == 5 {
+                            samples.push(format!("{{\"input\":{},\"config\":{},\"outcome\":{}}}", jesc(&txt), jesc(CONFIG_NAMES[cfg]), jesc(out.class())));
+                        }
+                    }
+                    // a second handler (same or different kind) at every position: always rejected
+                    for (k2i, k2) in kinds.iter().enumerate() {
+                        let _ = (ki, k2i);
+                        for pos2 in 0..=nb + 1 {
+                            let mut parts2 = parts.clone();
+                            parts2.insert(pos2, format!("{} => h2", k2));
+                            let txt = parts2.join(", ");
+                            let out = expand_str(&txt, cfg);
+                            n += 1;
+                            if !out.is_rejection() {
+                                nviol += 1;
+                                if viols.len() < 8 {
+                                    viols.push(format!("{{\"input\":{},\"config\":{},\"what\":{}}}", jesc(&txt), jesc(CONFIG_NAMES[cfg]), jesc(&format!("a second handler was not rejected with a message: {}", out.class()))));
+                                }
+                            }
+                        }
+                    }
+                }
+            }
+        }
+    }
+    println!(
+        "{{\"mode\":\"handlers\",\"inputs\":{},\"expansions\":{},\"nviol\":{},\"viols\":[{}],\"samples\":[{}],\"secs\":{:.1}}}",
+        n,
+        n,
+        nviol,
+        viols.join(","),
+        samples.join(","),
+        t0.elapsed().as_secs_f64()
+    );
+}
+
+fn options() {
+    let t0 = std::time::Instant::now();
+    // option id -> renderings with two different values
+    let render = |id: usize, alt: bool| -> String {
+        match id {
+            0 => if alt { "futures_crate_path(::my::fut)".into() } else { "futures_crate_path(::futures)".into() },
+            1 => if alt { "custom_joiner(my::joiner!)".into() } else { "custom_joiner(jn)".into() },
+            2 => format!("transpose_results({})", alt),
+            _ => format!("lazy_branches({})", alt),
+        }
+    };
+    let mut n = 0u64;
+    let mut nviol = 0u64;
+    let mut viols: Vec<String> = vec![];
+    let mut samples: Vec<String> = vec![];
+    let mut selections = 0u64;
+    // every ordered duplicate-free selection (incl. empty) ...
+    let mut sels: Vec<Vec<usize>> = vec![vec![]];
+    fn perms(cur: &mut Vec<usize>, out: &mut Vec<Vec<usize>>) {
+        for i in 0..4 {
+            if !cur.contains(&i) {
+                cur.push(i);
+                out.push(cur.clone());
+                perms(cur, out);
+                cur.pop();
+            }
+        }
+    }
+    let mut cur = vec![];
+    perms(&mut cur, &mut sels);
+    // ... and every selection with one duplicate inserted at every position
+    let mut dups: Vec<Vec<usize>> = vec![];
+    for s in &sels {
+        for &d in s.iter() {
+            for pos in 0..=s.len() {
+                let mut x = s.clone();
+                x.insert(pos, d);
+                dups.push(x);
+            }
+        }
+    }
+    for (dup, list) in [(false, &sels), (true, &dups)] {
+        for s in list.iter() {
+            selections += 1;
+            for alt in [false, true] {
+                for cfg in [0usize, 1, 3, 4, 5, 7] {
+                    let c = config(cfg);
+                    let txt = format!("{} a |> f, b ~=> g", s.iter().map(|i| render(*i, alt)).collect::<Vec<_>>().join(" "));
+                    n += 1;
+                    let ts = TokenStream::from_str(&txt).unwrap();
+                    let parsed = std::panic::catch_unwind(std::panic::AssertUnwindSafe(|| syn::parse2::<JoinInputDefault>(ts)));
+                    let mut bad: Option<String> = None;
+                    match parsed {
+                        Err(_) => bad = Some("parser panicked".into()),
+                        Ok(Err(e)) => {
+                            if !dup {
+                                bad = Some(format!("duplicate-free option selection was rejected: {}", e));
+                            }
+                        }
+                        Ok(Ok(j)) => {
+                            if dup {
+                                bad = Some("an option given twice was accepted".into());
+                            } else {
+                                // parsed fields must equal the rendered ones
+                                let want_path = if s.contains(&0) { Some(squeeze(if alt { "::my::fut".into() } else { "::futures".into() })) } else { None };
+                                let got_path = j.futures_crate_path.as_ref().map(|p| squeeze(p.to_token_stream().to_string()));
+                                let want_j = if s.contains(&1) { Some(squeeze(if alt { "my::joiner!".into() } else { "jn".into() })) } else { None };
+                                let got_j = j.custom_joiner.as_ref().map(|p| squeeze(p.to_string()));
+                                let want_t = if s.contains(&2) { Some(alt) } else { None };
+                                let want_l = if s.contains(&3) { Some(alt) } else { None };
+                                if got_path != want_path || got_j != want_j || j.transpose_results != want_t || j.lazy_branches != want_l || j.branches.len() != 2 {
+                                    bad = Some(format!(
+                                        "parsed options differ from the written ones: path {:?}/{:?} joiner {:?}/{:?} transpose {:?}/{:?} lazy {:?}/{:?} branches {}",
+                                        got_path, want_path, got_j, want_j, j.transpose_results, want_t, j.lazy_branches, want_l, j.branches.len()
+                                    ));
+                                } else {
+                                    // generation: futures_crate_path only applies to async macros
+                                    let out = expand_str(&txt, cfg);
+                                    let path_misuse = s.contains(&0) && !c.is_async;
+                                    match (&out, path_misuse) {
+                                        (Outcome::Ok(o), false) => {
+                                            if s.contains(&0) && alt && (!o.contains(":: my :: fut") || o.contains(":: futures ::")) {
+                                                bad = Some("futures items do not all come from the given futures_crate_path".into());
+                                            }
+                                            if s.contains(&1) && !squeeze(o.clone()).contains(&squeeze(if alt { "my::joiner!".into() } else { "jn(".into() })) {
+                                                bad = Some("the custom joiner is not used in the expansion".into());
+                                            }
+                                        }
+                                        (o, true) if o.is_rejection() => {}
+                                        (o, _) => bad = Some(format!("unexpected generation outcome {:?}", o.class())),
+                                    }
+                                }
+                            }
+                        }
+                    }
+                    if let Some(b) = bad {
+                        nviol += 1;
+                        if viols.len() < 8 {
+                            viols.push(format!("{{\"input\":{},\"config\":{},\"what\":{}}}", jesc(&txt), jesc(CONFIG_NAMES[cfg]), jesc(&b)));
+                        }
+                    } else if samples.len() < 3 && n % 997 == 11 {
+                        samples.push(format!("{{\"input\":{},\"config\":{}}}", jesc(&txt), jesc(CONFIG_NAMES[cfg])));
+                    }
+                }
+            }
+        }
+    }
+    println!(
+        "{{\"mode\":\"options\",\"selections\":{},\"inputs\":{},\"expansions\":{},\"nviol\":{},\"viols\":[{}],\"samples\":[{}],\"secs\":{:.1}}}",
+        selections,
+        n,
+        n,
+        nviol,
+        viols.join(","),
+        samples.join(","),
+        t0.elapsed().as_secs_f64()
+    );
+}
